@@ -20,7 +20,7 @@ CHECKS = {
     ),
 }
 
-CORE_NOTE = "Bounds: generated program families (sizes in the evidence), paths up to MaxCalls, numbers in the exact dyadic window; literal text plain ASCII. Trusted: TLC; the Go harness's rendering of cases to Yarn text and its observation code; the refinement YarnRunner => YarnSem is checked by TLC on the same bounded family only."
+CORE_NOTE = "Bounds: generated program families (sizes in the evidence), paths up to MaxCalls, numbers in the exact dyadic window; literal text plain ASCII. Trusted: TLC; the Go harness's rendering of cases to Yarn text and its observation code; the refinement YarnRunner => YarnSem is checked by TLC on the same bounded family only. The repository's fixtures and the hand-written corpus /verif/scripts are additionally run exactly as written and trace-validated against the dialogue the library parsed (stage `scripts`; scripts outside the modelled language are skipped and counted)."
 
 CHECKS.update({
     "C01": dict(
